@@ -384,11 +384,15 @@ def extractSequence (c : CDS) : R (List Char) := do
   let n : Int := locLen location
   pure (pySlice s offset (n - ((n - offset) % 3)))
 
-/-- `extract_sequence()` after `chunk_relative_codon_locations` was evaluated — the cached codon path -/
+/-- `extract_sequence()` after `chunk_relative_codon_locations` was evaluated — the cached codon path, taken
+    `if self._chunk_relative_codon_locations_cached is True and self.chunk_relative_codon_locations`
+    (a non-empty tuple); a CDS without codons falls through to the fast path -/
 def extractSequenceCached (c : CDS) : R (List Char) := do
   let ls ← codonLocations c
-  let parts ← ls.mapM (locationSeq c.seq)
-  pure parts.flatten
+  if ls.isEmpty then extractSequence c
+  else do
+    let parts ← ls.mapM (locationSeq c.seq)
+    pure parts.flatten
 
 /-! ### Codons and translation (`gene/codon.py`) -/
 
@@ -473,25 +477,24 @@ def hasValidStop (c : CDS) : R Bool := do
   let cod ← mkCodon (pySlice seq (-3) seq.length)
   pure (isStopCodon cod)
 
-/-- `next(self.scan_codons())`: the first codon; `none` = the generator is exhausted (Python raises the
-    internal `StopIteration`, for which `Base.Err` deliberately has no constructor) -/
+/-- `next(self.scan_codons(), None)`: the first codon, `none` for a CDS without a complete codon -/
 def firstCodon (c : CDS) : R (Option (List Char)) := do
   let seq ← extractSequence c
   match chunks3 seq with
   | [] => pure none
   | ch :: _ => do let cod ← mkCodon ch; pure (some cod)
 
-/-- `has_canonical_start_codon` (`none` = StopIteration escapes) -/
-def hasCanonicalStartCodon (c : CDS) : R (Option Bool) := do
+/-- `has_canonical_start_codon`: `first_codon is not None and first_codon.is_canonical_start_codon` -/
+def hasCanonicalStartCodon (c : CDS) : R Bool := do
   match ← firstCodon c with
-  | none => pure none
-  | some cod => pure (some (cod == "ATG".toList))
+  | none => pure false
+  | some cod => pure (cod == "ATG".toList)
 
-/-- `has_start_codon_in_specific_translation_table(table)` (`none` = StopIteration escapes) -/
-def hasStartCodonIn (c : CDS) (table : Int) : R (Option Bool) := do
+/-- `has_start_codon_in_specific_translation_table(table)` -/
+def hasStartCodonIn (c : CDS) (table : Int) : R Bool := do
   match ← firstCodon c with
-  | none => pure none
-  | some cod => do let b ← isStartCodonIn cod table; pure (some b)
+  | none => pure false
+  | some cod => isStartCodonIn cod table
 
 /-! ### `construct_frames_from_location` -/
 
